@@ -114,13 +114,15 @@ func (c Case) bitmap() []uint64 {
 
 var checker = &vk.Checker[Case]{
 	ID: "C04",
-	Rule: "AllPaths: level masks of height 0..30 x (from,to) built around a centre with a span in the upper half that is 0 or log-uniform (every magnitude up to 2^11 equally often, 2^11..2^18 (thorough 2^21) in one case of 24: results of up to 2^19 paths) and lower halves from {0, a valid mask, ffffffff, random}, plus exact hits p, p+-1, from==to, from>to, to=0, from beyond the tree, to's upper half = 2^h-1, 2^h, 2^h+1 (right edge) at every height, full ranges for h<=12 and now and then up to h=17 (thorough 20); " +
+	Rule: "AllPaths: level masks of height 0..30 x (from,to) built around a centre with a span in the upper half that is 0 or log-uniform (every magnitude up to 2^11 equally often, 2^11..2^18 (thorough 2^21) in one case of 24: results of up to 2^19 paths) and lower halves from {0, a valid mask, ffffffff, random}, plus exact hits p, p+-1, from==to, from>to, to=0, from beyond the tree (upper half 2^h..2^h+4, 2^31-3..2^31+3, 2^32-1, the last 4096 values, any 32-bit value above 2^h; to = from+1, from + a span, the same upper half, 2^64-1, 2^63, ffffffff00000000, random above 2^63), to's upper half = 2^h-1, 2^h, 2^h+1 (right edge) at every height, full ranges for h<=12 and now and then up to h=17 (thorough 20); " +
 		"oracle = per stored level enumerate candidate prefixes, encode, filter from<=p<to, sort; exact slice equality. Decode: masks of height <= 12 (thorough <= 16) with explicit bitmaps and (one decode case in 8) masks of height 13..18 (thorough ..21; weights fall with the height, Decode always walks the whole tree) with bitmaps given by a description (density styles incl. word-wise mixes of empty/full/random words, forced/cleared bits at the last node, at powers of two and at the ends) x any content, exact length, truncated (by 1..3 words or anywhere), empty (nil or empty non-nil), extended with garbage, garbage at bits >= bitmapSize; for a third (big: a fifth) of the cases the same tree is first decoded from the bitmap cut or zero-extended to other lengths (each result checked), so that a result depending on the previous call shows; oracle = pre-order walk with its own index; plus re-encoding through the library's PathToIndex (round trip; for height >= 13 the second Decode is skipped when the re-encoded bitmap equals the argument word for word). " +
-		"Grid: all masks h<=5 (thorough <=7) x all (from,to) from {every path, every path+-1}; Decode on all masks h<=3 x all subsets; a deterministic size sweep: Decode at every height 4..19 (thorough ..22) on masks 2^h, 2^h+1, 2^(h+1)-1 and two arbitrary ones x {half of the nodes + the last one, all, only the last one, word mix extended with garbage, dense truncated} (fewer combinations from height 15 on), AllPaths on ranges of 2^12..2^17 (thorough 2^20) search values ending at the right edge for heights 13..30; in the process that varies GOMAXPROCS one of the Decode cases per height 13..16 (thorough ..19; two at height 16) and some of the ranges are evaluated under every setting. Non-trivial (AllPaths): non-empty result and a clip actually taken (a stored node in from's group lies below from, or one in to's group is >= to); (Decode): proper non-empty subset, h>=2. " +
+		"Grid: all masks h<=5 (thorough <=7) x all (from,to) from {every path, every path+-1}, plus 14 values of from beyond the tree (2^h .. 2^64-1) x {the same 14, from+1, from+2^32, from+2^(h+32), from|ffffffff} as to and every ordinary from x those 14 as to; Decode on all masks h<=3 x all subsets; a deterministic size sweep: Decode at every height 4..19 (thorough ..22) on masks 2^h, 2^h+1, 2^(h+1)-1 and two arbitrary ones x {half of the nodes + the last one, all, only the last one, word mix extended with garbage, dense truncated} (fewer combinations from height 15 on), AllPaths on ranges of 2^12..2^17 (thorough 2^20) search values ending at the right edge for heights 13..30; in the process that varies GOMAXPROCS one of the Decode cases per height 13..16 (thorough ..19; two at height 16) and some of the ranges are evaluated under every setting. Non-trivial (AllPaths): non-empty result and a clip actually taken (a stored node in from's group lies below from, or one in to's group is >= to); (Decode): proper non-empty subset, h>=2. " +
 		"Decode is also given the head of the MAXIMUM bitmap (a 2^25-word array, the largest one int32 positions address) for masks of height <= 8 on three descriptions and for four masks of height 12..18. " +
+		"Results belong to the caller: the spare capacity of every returned slice is overwritten (not for the maximum bitmap) and the last 12 results (of those with more than 2^16 paths only the latest) stay under watch while the later calls of the case and the next cases run (up to 4096 paths re-read completely, longer ones head, tail and every 61st path; a result for a reused argument buffer / the maximum bitmap until that argument is rewritten; in the exhaustive AllPaths grid the previous result is re-read after each call; kind result-changed-after-return); no library call is added for this. " +
 		"Grid cases distinct by construction; rapid cases hashed only outside the grid domain.",
 	Check:    check,
 	Classify: classify,
+	KeepLen:  12,
 	Hashed: func(c Case) bool {
 		h := model.NewTree(c.Mask).H
 		if c.Op == "decode" {
@@ -260,19 +262,99 @@ func firstDiff(a, b []uint64) string {
 	return "equal"
 }
 
+// checkAllPaths: the call, the comparison with the oracle, and the result re-read after later calls (see watch).
 func checkAllPaths(mask int32, from, to uint64) *vk.Failure {
 	want, _ := wantAllPaths(mask, from, to)
 	var got []uint64
-	if f := vk.Try(fmt.Sprintf("AllPaths(%#x, %#x, %#x)", mask, from, to), func() { got = bmtree.AllPaths(mask, from, to) }); f != nil {
+	if f := vk.TryF(func() string { return fmt.Sprintf("AllPaths(%#x, %#x, %#x)", mask, from, to) }, func() { got = bmtree.AllPaths(mask, from, to) }); f != nil {
 		return f
 	}
 	if !eq(got, want) {
 		return vk.Failf("allpaths", "AllPaths(mask=%#x, from=%#x, to=%#x): %s; got %s want %s", mask, from, to, firstDiff(got, want), show(got), show(want))
 	}
+	return watch(func() string { return fmt.Sprintf("AllPaths(mask=%#x, from=%#x, to=%#x)", mask, from, to) }, got, want, nil, true)
+}
+
+// keep registers a returned result for later re-validation (set in init: the checker refers to check).
+var keepResult func(func() string)
+
+func init() { keepResult = checker.Keep }
+
+// fullReread: results of up to this many paths are re-read completely every time; of a longer one the first and the
+// last fullReread/2 paths and every 61st in between (it is re-read after each of the next dozen cases).
+const fullReread = 1 << 12
+
+// reread compares a result that was returned earlier with what it held then.
+func reread(what func() string, got, want []uint64) string {
+	if len(got) != len(want) {
+		return fmt.Sprintf("%s returned %d paths, the kept slice now has %d", what(), len(want), len(got))
+	}
+	step := 1
+	for i := 0; i < len(want); i += step {
+		if got[i] != want[i] {
+			return fmt.Sprintf("%s returned %#x at position %d (of %d), which now reads %#x", what(), want[i], i, len(want), got[i])
+		}
+		if len(want) > fullReread {
+			step = 1
+			if i >= fullReread/2 && i+61 < len(want)-fullReread/2 {
+				step = 61
+			}
+		}
+	}
+	return ""
+}
+
+// watch: a result belongs to the caller. Its spare capacity is overwritten (what the caller's append would do; not for
+// a result whose spare capacity could be the maximum bitmap) and it stays under watch (vk's Keep) while the later calls
+// of the case and the following cases run: it must still hold what it held when it was returned. No library call is
+// added for this - what Decode returns may not depend on the calls before it either, and extra calls in between would
+// hide that. valid says whether the argument the result might share memory with is still untouched (nil: always).
+func watch(what func() string, got, want []uint64, valid func() bool, scribble bool) *vk.Failure {
+	if scribble {
+		vk.ScribbleU64(got)
+	}
+	h := &held{what: what, got: got, want: want, valid: valid}
+	if len(want) > heldSmall {
+		// (memory: of the long results only the latest one stays referenced; the one before it is read a last time here,
+		// after the call that produced its successor)
+		if old := lastLong; old != nil {
+			msg := old.read()
+			old.got, old.want, old.dropped = nil, nil, true
+			if msg != "" {
+				lastLong = nil
+				return vk.Failf("result-changed-after-return", "a result returned earlier no longer reads as it did when it was returned (it aliases memory the library reuses): %s", msg)
+			}
+		}
+		lastLong = h
+	}
+	keepResult(h.read)
 	return nil
 }
 
+// held is a result under watch. heldSmall: the last 12 results of up to this many paths all stay under watch, and the
+// latest longer one.
+type held struct {
+	what      func() string
+	got, want []uint64
+	valid     func() bool
+	dropped   bool
+}
+
+func (h *held) read() string {
+	if h.dropped || (h.valid != nil && !h.valid()) {
+		return ""
+	}
+	return reread(h.what, h.got, h.want)
+}
+
+const heldSmall = 1 << 16
+
+var lastLong *held
+
 var scratch vk.Scratch
+
+// scratchGen counts the calls that were given the reused argument buffer.
+var scratchGen int
 
 // decodeCall hands a private copy of the bitmap to Decode and compares the result with want.
 func decodeCall(mask int32, keep, want []uint64, what string) *vk.Failure {
@@ -280,6 +362,7 @@ func decodeCall(mask int32, keep, want []uint64, what string) *vk.Failure {
 	bm := append(make([]uint64, 0, len(keep)), keep...) // the code under test gets a private copy ...
 	reused := scratch.Reuse(sum)
 	if reused {
+		scratchGen++
 		bm = scratch.U64(keep) // ... or a reused buffer (same address as earlier calls) with guarded spare capacity
 	} else if len(keep) == 0 {
 		bm = vk.ShapeU64(keep, sum) // ... an empty bitmap as nil or as an empty non-nil slice
@@ -299,7 +382,14 @@ func decodeCall(mask int32, keep, want []uint64, what string) *vk.Failure {
 			return vk.Failf("argument-spare-capacity-written", "Decode: %s", msg)
 		}
 	}
-	return nil
+	// (the argument has been checked: from here on it does not matter if the result shares memory with it; a result for the
+	// reused argument buffer is watched until that buffer is filled again)
+	nw := len(bm)
+	var valid func() bool
+	if g := scratchGen; reused {
+		valid = func() bool { return scratchGen == g }
+	}
+	return watch(func() string { return fmt.Sprintf("Decode(mask=%#x, %d words)%s", mask, nw, what) }, got, want, valid, true)
 }
 
 // resized returns the first k words of bm, zero-extended when k > len(bm).
@@ -362,12 +452,21 @@ func checkDecode(mask int32, bm []uint64, prev []int) *vk.Failure {
 	if !eq(got2, want) {
 		return vk.Failf("roundtrip", "encode(PathToIndex) then Decode(mask=%#x): %s", mask, firstDiff(got2, want))
 	}
-	return nil
+	return watch(func() string { return fmt.Sprintf("Decode(mask=%#x, the re-encoded bitmap)", mask) }, got2, want, nil, true)
+}
+
+// curMax is the description the maximum bitmap currently holds (a result for another description is no longer watched:
+// the argument has been rewritten).
+var curMax = -1
+
+func useMax(v int) []uint64 {
+	curMax = v
+	return gen.UseMax(v)
 }
 
 // maxHead is a private copy of the first words of the maximum bitmap's description (what the mask can address).
 func maxHead(v int, mask int32) []uint64 {
-	gen.UseMax(v)
+	useMax(v)
 	h := make([]uint64, max((int(mask)+63)/64+1, 9))
 	for k := range h {
 		h[k] = gen.MaxWord(k)
@@ -383,7 +482,7 @@ func checkMaxDecode(v int, mask int32) *vk.Failure {
 		return nil
 	}
 	want, _ := wantDecode(mask, maxHead(v, mask))
-	bm := gen.UseMax(v)
+	bm := useMax(v)
 	var got []uint64
 	if f := vk.Try(fmt.Sprintf("Decode(%#x, 2^25 words (description %d))", mask, v), func() { got = bmtree.Decode(mask, bm) }); f != nil {
 		return f
@@ -394,7 +493,7 @@ func checkMaxDecode(v int, mask int32) *vk.Failure {
 	if k, bad := gen.MaxBitmapDamage(); bad {
 		return vk.Failf("decode-mutates", "Decode modified word %d of its 2^25-word bitmap argument", k)
 	}
-	return nil
+	return watch(func() string { return fmt.Sprintf("Decode(mask=%#x, 2^25-word bitmap (description %d))", mask, v) }, got, want, func() bool { return curMax == v }, false)
 }
 
 func check(c Case) *vk.Failure {
@@ -620,9 +719,45 @@ func genAllPaths(t *rapid.T) Case {
 		c.Class = "to=0"
 		c.From, c.To = vk.U64(nodeWord("p")), 0
 	case 5:
+		// from's upper half is at or beyond 2^h - next to the tree, at the sign bit of a 32-bit counter, at the top of
+		// the 32-bit range, anywhere in between - and to lies above it (or wraps): nothing may be returned
 		c.Class = "beyond-tree"
-		c.From = vk.U64((edge+gen.U64(t, "over")%5)<<32 | lowHalf(t, h, "from"))
-		c.To = vk.U64(gen.U64(t, "to") | 1<<63)
+		fu := edge + gen.U64(t, "over")%5
+		if far := gen.Uniform(t, 8, "far"); far >= 2 {
+			c.Class = "beyond-tree-far"
+			switch far {
+			case 2:
+				fu = 1<<31 - 1 - gen.U64(t, "farback")%3
+			case 3:
+				fu = 1 << 31
+			case 4:
+				fu = 1<<31 + 1 + gen.U64(t, "farfwd")%3
+			case 5:
+				fu = 1<<32 - 1
+			case 6:
+				fu = 1<<32 - 1 - gen.U64(t, "farback")%4096
+			default:
+				fu = edge + 5 + gen.U64(t, "farany")%(1<<32-edge-5)
+			}
+		}
+		from := fu<<32 | lowHalf(t, h, "from")
+		c.From = vk.U64(from)
+		switch gen.Uniform(t, 7, "beyondto") {
+		case 0:
+			c.To = vk.U64(from + 1)
+		case 1:
+			c.To = vk.U64(from + genSpan(t, "span")<<32)
+		case 2:
+			c.To = vk.U64(fu<<32 | 0xffffffff)
+		case 3:
+			c.To = vk.U64(^uint64(0))
+		case 4:
+			c.To = 1 << 63
+		case 5:
+			c.To = vk.U64((1<<32 - 1) << 32)
+		default:
+			c.To = vk.U64(gen.U64(t, "to") | 1<<63)
+		}
 	case 6:
 		// the whole tree: always for h <= 12, now and then up to the height whose 2^(h+1) nodes the tier affords
 		if h <= 12 || (h <= spanBig() && gen.Chance(t, 1, 6, "fulltall")) {
@@ -862,6 +997,8 @@ func TestGrid(t *testing.T) {
 		t.Fatalf("VERIF-FAIL property=C04 kind=%s: %s", f.Kind, f.Msg)
 	}
 	maxH := gridH()
+	var prev Case
+	var prevGot, prevWant []uint64
 	for mask := int32(1); mask < int32(1)<<uint(maxH+1); mask++ {
 		if int(mask)%nshards != shard {
 			continue
@@ -872,21 +1009,56 @@ func TestGrid(t *testing.T) {
 			p := model.PathWord(prefix, l, tr.H)
 			vals = append(vals, p, p+1, p-1)
 		})
+		one := func(from, to uint64) {
+			evals++
+			want, clipped := wantAllPaths(mask, from, to)
+			if len(want) > 0 && clipped {
+				nontriv++
+			}
+			// (checkAllPaths without its closures and without vk's Keep, the grid does not go through Eval: the result of the
+			// previous call is read again after this one)
+			var got []uint64
+			f := vk.Try("AllPaths", func() { got = bmtree.AllPaths(mask, from, to) })
+			if f == nil && !eq(got, want) {
+				f = vk.Failf("allpaths", "grid mismatch")
+			}
+			c := Case{Op: "allpaths", Mask: mask, From: vk.U64(from), To: vk.U64(to), Class: "grid"}
+			if f == nil {
+				vk.ScribbleU64(got)
+				if !eq(prevGot, prevWant) {
+					f = vk.Failf("result-changed-after-return", "grid: the result of the previous call changed")
+					if g := checker.Eval(prev); g != nil { // (expected to pass; the result it leaves under watch fails the evaluation of c)
+						fail(prev, g)
+					}
+				}
+			}
+			if f != nil {
+				fail(c, f)
+			}
+			prev, prevGot, prevWant = c, got, want
+		}
 		for _, from := range vals {
 			for _, to := range vals {
-				evals++
-				want, clipped := wantAllPaths(mask, from, to)
-				if len(want) > 0 && clipped {
-					nontriv++
-				}
-				var got []uint64
-				f := vk.Try("AllPaths", func() { got = bmtree.AllPaths(mask, from, to) })
-				if f == nil && !eq(got, want) {
-					f = vk.Failf("allpaths", "grid mismatch")
-				}
-				if f != nil {
-					fail(Case{Op: "allpaths", Mask: mask, From: vk.U64(from), To: vk.U64(to), Class: "grid"}, f)
-				}
+				one(from, to)
+			}
+		}
+		// from beyond the tree, up to the top of uint64, x every to above it (and the wrapped ones); every ordinary from x
+		// those values as to
+		edge := uint64(1) << uint(tr.H)
+		ones := model.PathWord(0, tr.H, tr.H) & 0xffffffff
+		far := []uint64{^uint64(0), (1<<32 - 1) << 32, (1<<32-1)<<32 | ones, (1<<32 - 16) << 32, (1<<31+1)<<32 | ones, 1 << 63, 1<<63 | ones, 1<<63 - 1, (1<<31-1)<<32 | ones,
+			vk.Mix(uint64(mask)) | edge<<33, (edge+5)<<32 | ones, (edge + 1) << 32, edge<<32 | ones, edge << 32}
+		for _, from := range far {
+			for _, to := range far {
+				one(from, to)
+			}
+			for _, to := range []uint64{from + 1, from + 1<<32, from + edge<<32, from | 0xffffffff} {
+				one(from, to)
+			}
+		}
+		for _, from := range vals {
+			for _, to := range far {
+				one(from, to)
 			}
 		}
 	}
@@ -901,9 +1073,15 @@ func TestGrid(t *testing.T) {
 				if sub != 0 && sub != 1<<uint(mask)-1 && model.NewTree(mask).H >= 2 && len(bm) > 0 {
 					nontriv++
 				}
-				if f := checkDecode(mask, bm, nil); f != nil {
-					fail(Case{Op: "decode", Mask: mask, Bm: bm, Class: "grid"}, f)
+				c := Case{Op: "decode", Mask: mask, Bm: bm, Class: "grid"}
+				f := checkDecode(mask, bm, nil)
+				if f == nil {
+					f = checker.RunKeepers() // (the results of the last calls, this case's among them, read again)
 				}
+				if f != nil {
+					fail(c, f)
+				}
+				checker.Remember(c)
 			}
 		}
 	}
